@@ -21,7 +21,7 @@ import (
 // A case is a little session: the first op builds the pieces, later ops work on them.
 //   newpieces pl=<n> np=<n> len=<L> files=<len>:<pad>:<name>,…   obs: ok <piece>;<piece>…  | panic
 //        piece = <length>|<fileIndex>:<offset>:<length>:<pad>:<name>+…      (name "" is printed 0)
-//   write piece=<i> buf=<hex>        obs: ok|err n=<n> files=<hex>,<hex>,P,…   | panic | nopiece
+//   write piece=<i> buf=<hex>        obs: ok|err n=<n> files=<hex>,<hex>,P,… | panic files=… | nopiece
 //   readat piece=<i> off=<o> n=<n>   obs: ok <hex> | short <k> <hex> | panic | nopiece
 //   readall piece=<i>                obs: results of readat for every 0<n, off+n<=piece length, `;`-joined
 //   jobs begin=<b> end=<e>           obs: <name>:<rangeBegin>:<length>:<pad>,… | - | panic
@@ -198,14 +198,19 @@ func execGeometry(ops []string) []string {
 			src := unhex(m["buf"])
 			buf := make([]byte, len(src), len(src)) // cap == len: slicing beyond len panics like beyond cap
 			copy(buf, src)
-			obs = append(obs, geoTry(func() string {
+			res := geoTry(func() string {
 				n, err := st.pieces[i].Data.Write(buf)
 				tag := "ok"
 				if err != nil {
 					tag = "err"
 				}
 				return fmt.Sprintf("%s n=%d files=%s", tag, n, st.showFiles())
-			}))
+			})
+			if res == "panic" {
+				// sections written before the panic stay written
+				res = "panic files=" + st.showFiles()
+			}
+			obs = append(obs, res)
 		case "readat":
 			i := atoi(m["piece"])
 			if st == nil || i < 0 || i >= len(st.pieces) {
